@@ -126,6 +126,7 @@ type e1run struct {
 	c16        func(r *e1run, k int)
 	sizeHook   func(r *e1run, ok bool)
 	finalHook  func(r *e1run)
+	fragSeq    map[int]map[int]uint32 // fMP4 variant: per stream, media sequence number -> sequence number of the segment's last fragment
 	stepHook   func(r *e1run)
 	// c06Hints: preload-hint URIs seen so far (C06) -> the bytes the first successful GET returned (nil: not fetched yet)
 	c06Hints  map[string][]byte
